@@ -328,6 +328,8 @@ class Check:
         self.repo = repo
         self.machine = load_machine(prop)
         self.opts = self.machine.tier_opts(tier)
+        if os.environ.get("AWSIM_RUN_TIMEOUT"):      # development aid: exercise the watchdog paths
+            self.opts["run_timeout"] = float(os.environ["AWSIM_RUN_TIMEOUT"])
         if runs:
             self.opts["runs"] = runs
         self.workers = workers
@@ -625,6 +627,22 @@ def run_check(prop, tier, seed, repo, runs=None, skip_selftest=False, mutants=Fa
             culprits = [j for j in found if i is not None and j % W == i % W and j <= i]
             if culprits:
                 ck.notes.append("run %s %s: explained by the memory error of run %d on the same worker" % (i, what, max(culprits)))
+            elif i is not None and what.startswith("died (timeout)"):
+                # the watchdog is the one real clock of the harness. The run finishes alone and nothing before it on its
+                # worker is a memory error: replay the worker's history once more, in order, in one fresh process, with
+                # five times the time limit. A hang that belongs to the simulated behaviour repeats (one seed is one
+                # execution); one that does not was wall-clock time lost to the load on the machine.
+                hist = list(range(i % W, i + 1, W))[-opts.get("traceback_runs", 4000):]
+                o2 = dict(opts)
+                o2["run_timeout"] = opts.get("run_timeout", 20.0) * 5
+                _, d2 = core.run_batch(machine, lib, hist, seed, prop, o2, workers=1)
+                if any(d.index == i for d in d2):
+                    unexplained.append((i, what + ", and again when its worker's history is replayed in a fresh process"))
+                else:
+                    ck.notes.append("run %s %s: finishes alone and when the %d runs of its worker's history are replayed in a "
+                                    "fresh process with 5x the time limit; no memory error before it - wall-clock time lost to "
+                                    "machine load, not behaviour of the simulated run" % (i, what, len(hist)))
+                    cov["anomalies"]["load_timeouts"] = cov["anomalies"].get("load_timeouts", 0) + 1
             else:
                 unexplained.append((i, what))
 
